@@ -87,9 +87,20 @@ package filtering
 //@   ensures must-replace-the-block-engine: err == nil ==> d.filteringEngine != nil && fresh(d.filteringEngine)
 //@   ensures must-replace-the-allow-engine: err == nil ==> d.filteringEngineAllow != nil && fresh(d.filteringEngineAllow)
 //@   modifies *
+// setFiltersCalls counts the engine rebuilds asked for.  enableFiltersLocked always asks for one, whatever the global
+// switch says: a client with its own settings may have filtering on while it is off globally.
+//@ ghost var setFiltersCalls int
+//@ func (d *DNSFilter) enableFiltersLocked(async bool)
+//@   property C01
+//@   callsites-only
+//@   requires !held(d.engineLock) && !rheld(d.engineLock)
+//@   requires !held(d.filtersInitializerLock)
+//@   ensures must-rebuild-the-engines: setFiltersCalls == old(setFiltersCalls) + 1
+//@   modifies *
 //@ func (d *DNSFilter) setFilters(blockFilters []Filter, allowFilters []Filter, async bool) (r0 error)
 //@   property C01
 //@   callsites-only
+//@   ghost at entry: setFiltersCalls = old(setFiltersCalls) + 1
 //@   requires !held(d.engineLock) && !rheld(d.engineLock)
 //@   requires !held(d.filtersInitializerLock)
 //@   callsite (*github.com/AdguardTeam/AdGuardHome/internal/filtering.DNSFilter).initFiltering(dd, a, b) requires lists-in-their-places: a == allowFilters && b == blockFilters
@@ -155,6 +166,18 @@ package filtering
 //@   requires nolocks()
 //@   requires d.conf.BlockedServices != nil
 //@   ensures schedule-kept: d.conf.BlockedServices != nil && d.conf.BlockedServices.Schedule == old(d.conf.BlockedServices.Schedule)
+//@   modifies *
+// (Validate only reads the list of service names: assumed frame.)
+//@ func (s *BlockedServices) Validate() (err error)
+//@   callsites-only
+//@   modifies nothing
+// The "update" request replaces list and schedule as a whole: the body is decoded into an empty value, so that no
+// day of the schedule in force can survive in the new one.
+//@ func (d *DNSFilter) handleBlockedServicesUpdate(w http.ResponseWriter, r *http.Request)
+//@   property C18
+//@   callsites-only
+//@   requires nolocks()
+//@   callsite (*encoding/json.Decoder).Decode(dec, v) requires decoded-into-an-empty-value: typeIs(v, *BlockedServices) && unbox(v, *BlockedServices).Schedule == nil && len(unbox(v, *BlockedServices).IDs) == 0
 //@   modifies *
 // The global list under the global schedule, a client's own list under that client's schedule - and only while the
 // schedule consulted for it is not pausing.
